@@ -45,6 +45,10 @@ def norm(v):
     return v
 
 
+# (priority, source, destination) boundary values cycled over the corpus
+ADDRESSING = [(3, 7, 255), (0, 0, 0), (7, 255, 255), (1, 254, 1), (6, 1, 35), (2, 0, 254), (5, 128, 0)]
+
+
 class JsonCorpusTask(Task):
     """Bounded: executes the contract from_json(to_json(m)) ~ m and encode(from_json(to_json(m))) == encode(m) natively."""
     def __init__(self, defs):
@@ -68,7 +72,8 @@ class JsonCorpusTask(Task):
             for (p, n) in payloads_for(defn, rnd):
                 data = p.to_bytes(n, 'little')[::-1]
                 try:
-                    m = dec._call_decode_function(defn.pgn, 3, 7, 255, datetime.datetime(2020, 1, 2, 3, 4, 5), data, None, b'')
+                    prio, src, dst = ADDRESSING[tried % len(ADDRESSING)]
+                    m = dec._call_decode_function(defn.pgn, prio, src, dst, datetime.datetime(2020, 1, 2, 3, 4, 5), data, None, b'')
                 except Exception:  # noqa
                     continue
                 if m is None or m.id != defn.id:
@@ -122,6 +127,8 @@ def main(tier):
     for combined in (True, False):
         for claim in (True, False):
             run.add(DecodeTask('C15', combined, claim))
+    from props.C15_json import FromJsonTask, ToJsonTask
+    run.add(FromJsonTask(), ToJsonTask())
     defs = [x for x in db().defs if db().selectable(x)]
     for ch in chunks(defs, 16):
         run.add(JsonCorpusTask(ch))
